@@ -117,3 +117,50 @@ func (w *World) splitByzAction(v *view, id int) (simrt.Action, bool) {
 	}
 	return simrt.Action{K: "byz", N: id, S: kind, A: h, B: int64(r), C: int64(idx + 1), I: tag}, true
 }
+
+// The laggard attack: one honest validator (with less than a third of the power, so that the others
+// do not need it) is kept one round behind in what it knows: in a seeded half of the rounds every vote
+// of the round it is in is withheld from it until it has left that round - it moves on only by being
+// pulled along by the votes of later rounds - and arrives afterwards. Polkas therefore reach it late,
+// for rounds it has already left, which is where the lock and unlock rules have their corner cases.
+
+func drawLaggard(cfg *Config, r *simrt.Rand) {
+	var total int64
+	for _, p := range cfg.Powers {
+		total += p
+	}
+	var cands []int
+	for i := range cfg.Powers {
+		if !cfg.Byz[i] && cfg.Powers[i]*3 < total {
+			cands = append(cands, i)
+		}
+	}
+	if len(cands) == 0 {
+		return
+	}
+	cfg.Attack = "laggard"
+	cfg.Victim = cands[r.Intn(len(cands))]
+	cfg.Partition = false
+	if cfg.WByz < 20 {
+		cfg.WByz = 20
+	}
+}
+
+func (w *World) laggardHolds(it *Item, v *view) bool {
+	if w.Cfg.Attack != "laggard" || v.nd.id != w.Cfg.Victim {
+		return false
+	}
+	if it.Kind != kVote && it.Kind != kClaim {
+		return false
+	}
+	if it.H != v.rs.Height || it.R != v.rs.Round || it.Signer == v.nd.id {
+		return false
+	}
+	x := w.Cfg.Seed ^ uint64(it.H)*0x9e3779b97f4a7c15 ^ uint64(it.R+1)*0xc2b2ae3d27d4eb4f
+	x ^= x >> 29
+	if x%2 == 0 {
+		return false
+	}
+	w.Faults.Inc("laggard_vote_withheld_steps")
+	return true
+}
